@@ -28,6 +28,7 @@ mutual
     | .ifE c cons none => pureE c && pureSs cons
     | .ifE c cons (some a) => pureE c && pureSs cons && pureSs a
     | .whileE c body => pureE c && pureSs body
+    | .foreachE _ _ v body => pureE v && pureSs body
     | _ => false
   def pureS : Stmt → Bool
     | .ret e => pureE e
@@ -36,6 +37,15 @@ mutual
     | [] => true
     | s :: ss => pureS s && pureSs ss
 end
+
+/-- what OpIterationReset makes of the value to iterate over -/
+def resetVal : Value → Res
+  | .array els => .ok (.array els)
+  | .str s => .ok (.str s)
+  | .hash ps => .ok (.hash ps)
+  | .iterating inner _ => .ok inner
+  | .nil => .error .panic
+  | _ => err "notIterable"
 
 mutual
   /-- big-step semantics of statements, with a step budget for loops: a statement runs after the one
@@ -64,7 +74,31 @@ mutual
             | .normal env' o' => execE M obj f (.whileE c body) env' o'
             | other => other
           else .normal env o
+    | f + 1, .foreachE idx x v body, env, out =>
+        match evalE M obj env v out with
+        | (.error e, o) => .failed e env o
+        | (.ok iv, o) =>
+          match resetVal iv with
+          | .ok it => execIter M obj f idx x body it 0 env.addScope o
+          | .error e => .failed e env.addScope o
     | _ + 1, _, env, out => .failed .unsupported env out
+  /-- the turns of a foreach loop over `it`, from offset `k`: each element is bound (with its index or
+      key when an index variable was given) in the loop's scope and the body runs; when no element is left
+      the loop's scope is closed -/
+  def execIter (M : Machine) (obj : HostVal) : Nat → Str → Str → List Stmt → Value → Nat → Env → Str → Outcome
+    | 0, _, _, _, _, _, _, _ => .diverged
+    | f + 1, idx, x, body, it, k, env, out =>
+        match iterNext it k with
+        | some (val, i) =>
+          let env1 := env.declare x val
+          let env2 := if idx.isEmpty then env1 else env1.declare idx i
+          match execSs M obj f body env2 out with
+          | .normal env3 o3 => execIter M obj f idx x body it (k + 1) env3 o3
+          | other => other
+        | none =>
+          match env.removeScope with
+          | none => .failed (.error "removeScope") env out
+          | some e => .normal e out
   def execS (M : Machine) (obj : HostVal) : Nat → Stmt → Env → Str → Outcome
     | 0, _, _, _ => .diverged
     | _ + 1, .ret e, env, out =>
@@ -97,11 +131,108 @@ theorem step_set (M : Machine) (obj : HostVal) (len : Nat) (rb : Bytes → RunSt
   simp only [step, this, isBinary]; simp
 
 
+theorem step_iterReset_ok (M : Machine) (obj : HostVal) (len : Nat) (rb : Bytes → RunSt → Res × RunSt) (arg next : Nat)
+    (v it : Value) (stack : List Value) (st : RunSt) (h : resetVal v = .ok it) :
+    step M obj len rb Op.iterationReset.toNat arg next (v :: stack) st =
+      .cont next (.iterating it 0 :: stack) { st with env := st.env.addScope } := by
+  have : Op.ofNat? Op.iterationReset.toNat = some .iterationReset := rfl
+  simp only [step, this, isBinary]
+  cases v <;> simp [resetVal, err] at h <;> simp [h]
+
+theorem step_iterReset_err (M : Machine) (obj : HostVal) (len : Nat) (rb : Bytes → RunSt → Res × RunSt) (arg next : Nat)
+    (v : Value) (e : Err) (stack : List Value) (st : RunSt) (h : resetVal v = .error e) :
+    step M obj len rb Op.iterationReset.toNat arg next (v :: stack) st = .halt (.error e) { st with env := st.env.addScope } := by
+  have : Op.ofNat? Op.iterationReset.toNat = some .iterationReset := rfl
+  simp only [step, this, isBinary]
+  cases v <;> simp [resetVal, err] at h <;> simp [h, err]
+
+theorem step_iterNext_some (M : Machine) (obj : HostVal) (len : Nat) (rb : Bytes → RunSt → Res × RunSt) (arg next : Nat)
+    (varName idxName it : Value) (k : Nat) (stack : List Value) (st : RunSt) (x i : Value)
+    (h : iterNext it k = some (x, i)) :
+    step M obj len rb Op.iterationNext.toNat arg next (varName :: idxName :: .iterating it k :: stack) st =
+      .cont next (.bool true :: .iterating it (k + 1) :: stack)
+        { st with env := (if idxName.inspect.isEmpty then st.env.declare varName.inspect x
+                          else (st.env.declare varName.inspect x).declare idxName.inspect i) } := by
+  have : Op.ofNat? Op.iterationNext.toNat = some .iterationNext := rfl
+  simp only [step, this, isBinary]
+  simp [h]
+
+theorem step_iterNext_end (M : Machine) (obj : HostVal) (len : Nat) (rb : Bytes → RunSt → Res × RunSt) (arg next : Nat)
+    (varName idxName it : Value) (k : Nat) (stack : List Value) (st : RunSt) (env' : Env)
+    (h : iterNext it k = none) (hs : st.env.removeScope = some env') :
+    step M obj len rb Op.iterationNext.toNat arg next (varName :: idxName :: .iterating it k :: stack) st =
+      .cont next (.bool false :: stack) { st with env := env' } := by
+  have : Op.ofNat? Op.iterationNext.toNat = some .iterationNext := rfl
+  simp only [step, this, isBinary]
+  simp [h, hs]
+
+theorem step_iterNext_noscope (M : Machine) (obj : HostVal) (len : Nat) (rb : Bytes → RunSt → Res × RunSt) (arg next : Nat)
+    (varName idxName it : Value) (k : Nat) (stack : List Value) (st : RunSt)
+    (h : iterNext it k = none) (hs : st.env.removeScope = none) :
+    step M obj len rb Op.iterationNext.toNat arg next (varName :: idxName :: .iterating it k :: stack) st =
+      .halt (.error (.error "removeScope")) st := by
+  have : Op.ofNat? Op.iterationNext.toNat = some .iterationNext := rfl
+  simp only [step, this, isBinary]
+  simp [h, hs, err]
+
 theorem CodeAt.tail {code : Bytes} {off : Nat} {i : Instr} {rest : List Instr} (h : CodeAt code off (i :: rest)) :
     CodeAt code (off + i.size) rest := by
   have : CodeAt code off ([i] ++ rest) := h
   have := this.right
   simpa [codeSize] using this
+
+
+/-- the pieces of the code of a `foreach`, where they sit, and what its name constants denote -/
+structure ForeachLayout (M : Machine) (code : Bytes) (idx x : Str) (v : Expr) (body : List Stmt) (base : Nat)
+    (cst : CState) (r : List Instr × CState) (cv : List Instr) (st1 : CState) (cb : List Instr) (ci cx : Value) : Prop where
+  hv : compileExpr v base cst = .ok (cv, st1)
+  hb : compileStmts body (base + v.size + 1 + 3 + 3 + 1 + 3)
+        (withConst (withConst st1 .constant (.str idx)).2 .constant (.str x)).2 = .ok (cb, r.2)
+  atv : CodeAt code base cv
+  atReset : CodeAt code (base + v.size)
+    [⟨.iterationReset, 0⟩, (withConst st1 .constant (.str idx)).1,
+     (withConst (withConst st1 .constant (.str idx)).2 .constant (.str x)).1, ⟨.iterationNext, 0⟩,
+     ⟨.jumpIfFalse, base + v.size + 1 + 3 + 3 + 1 + 3 + Stmt.sizes body + 3⟩]
+  atBody : CodeAt code (base + v.size + 11) cb
+  atJump : CodeAt code (base + v.size + 11 + Stmt.sizes body) [⟨.jump, base + v.size + 1⟩, ⟨.placeholder, 0⟩]
+  bound : base + (v.size + 11 + Stmt.sizes body + 4) ≤ code.length
+  pool1 : ∃ ex, M.consts = st1.consts ++ ex
+  poolB : ∃ ex, M.consts = r.2.consts ++ ex
+  geti : M.consts[(withConst st1 .constant (.str idx)).1.arg]? = some ci
+  getx : M.consts[(withConst (withConst st1 .constant (.str idx)).2 .constant (.str x)).1.arg]? = some cx
+  namei : ci.inspect = idx
+  namex : cx.inspect = x
+
+theorem foreach_layout {M : Machine} {code : Bytes} {idx x : Str} {v : Expr} {body : List Stmt} {base : Nat}
+    {cst : CState} {r : List Instr × CState} (h : compileExpr (.foreachE idx x v body) base cst = .ok r)
+    (hc : CodeAt code base r.1) (hp : ∃ ex, M.consts = r.2.consts ++ ex) :
+    ∃ cv st1 cb ci cx, ForeachLayout M code idx x v body base cst r cv st1 cb ci cx := by
+  simp only [compileExpr, bind_ok_eq, pure, Except.pure] at h
+  obtain ⟨⟨cv, st1⟩, h1, ⟨cb, st2⟩, h2, h3⟩ := h
+  cases h3
+  have s1 := compileExpr_size v base cst _ h1
+  have s2 := compileStmts_size body _ _ _ h2
+  have r2 := compileStmts_R body _ _ _ h2
+  simp only at s1 s2 r2
+  have hpk : ∃ ex, M.consts = (withConst (withConst st1 .constant (.str idx)).2 .constant (.str x)).2.consts ++ ex :=
+    pool_trans hp r2.ext
+  have hpi : ∃ ex, M.consts = (withConst st1 .constant (.str idx)).2.consts ++ ex :=
+    pool_trans hpk (addConstant_ext _ (.str x))
+  obtain ⟨ci, geti, _, hni⟩ := withConst_pool st1 .constant (.str idx) M.consts hpi
+  obtain ⟨cx, getx, _, hnx⟩ := withConst_pool (withConst st1 .constant (.str idx)).2 .constant (.str x) M.consts hpk
+  have hbound : base + (v.size + 11 + Stmt.sizes body + 4) ≤ code.length := by
+    have := hc.bound
+    simp only [codeSize_append, codeSize_cons, codeSize_nil, s1, s2, Instr.size, Op.length, withConst_op] at this
+    omega
+  refine ⟨cv, st1, cb, ci, cx, h1, h2, hc.left.left.left, ?_, ?_, ?_, hbound, pool_trans hpi (addConstant_ext _ (.str idx)), hp, geti, getx,
+    by rw [hni]; simp [Value.inspect], by rw [hnx]; simp [Value.inspect]⟩
+  · have := hc.left.left.right; rwa [s1] at this
+  · have := hc.left.right
+    simp only [codeSize_append, codeSize_cons, codeSize_nil, s1, Instr.size, Op.length, withConst_op] at this
+    exact this.cast (by omega)
+  · have := hc.right
+    simp only [codeSize_append, codeSize_cons, codeSize_nil, s1, s2, Instr.size, Op.length, withConst_op] at this
+    exact this.cast (by omega)
 
 section
 variable (M : Machine) (obj : HostVal) (code : Bytes)
@@ -123,9 +254,18 @@ structure SIH (f : Nat) : Prop where
       ∀ (stack : List Value) (env : Env) (out : Str) (polls depth : Nat), execSs M obj f ss env out ≠ .diverged →
       ∃ n k, ∀ fuel, loop M obj code (fuel + n) base stack ⟨env, out, polls, depth⟩ =
         afterS M obj code fuel (base + Stmt.sizes ss) stack (polls + k) depth (execSs M obj f ss env out)
+  /-- a foreach loop from its head (the two name constants before OpIterationNext), the iterator on the stack -/
+  I : ∀ (idx x : Str) (v : Expr) (body : List Stmt) (base : Nat) (cst : CState) (r : List Instr × CState),
+      pureE v = true → pureSs body = true →
+      compileExpr (.foreachE idx x v body) base cst = .ok r → CodeAt code base r.1 → (∃ ex, M.consts = r.2.consts ++ ex) →
+      ∀ (it : Value) (k : Nat) (stack : List Value) (env : Env) (out : Str) (polls depth : Nat),
+        execIter M obj f idx x body it k env out ≠ .diverged →
+      ∃ n k', ∀ fuel, loop M obj code (fuel + n) (base + v.size + 1) (.iterating it k :: stack) ⟨env, out, polls, depth⟩ =
+        afterS M obj code fuel (base + (Expr.foreachE idx x v body).size) stack (polls + k') depth
+          (execIter M obj f idx x body it k env out)
 
 theorem SIH_zero : SIH M obj code 0 := by
-  constructor <;> intros <;> simp_all [execE, execS, execSs]
+  constructor <;> intros <;> simp_all [execE, execS, execSs, execIter]
 
 
 variable {M obj code}
@@ -555,12 +695,188 @@ theorem step_E (ctx : Ctx M code) (f : Nat) (ih : SIH M obj code f) :
           intro fuel
           rw [step_placeholder]
           simp [afterS, hsz, Instr.size, Op.length, Nat.add_assoc]
+  | foreachE idx x v body =>
+    simp only [stmtE, Bool.and_eq_true] at hpure
+    obtain ⟨cv, st1, cb, ci, cx, L⟩ := foreach_layout h hc hp
+    have hres := L.atReset
+    obtain ⟨n1, k1, ih1⟩ := expr_ok v base cst _ hpure.1 L.hv M obj code ctx L.atv L.pool1 stack env out polls depth
+    simp only [execE] at hnd ⊢
+    cases hev : evalE M obj env v out with
+    | mk res o1 =>
+      cases res with
+      | error e => exact ⟨n1, k1, fun fuel => by rw [ih1 fuel, hev]; simp [after, afterS]⟩
+      | ok iv =>
+        simp only [hev] at hnd
+        have hrun1 : ∀ fuel, loop M obj code (fuel + n1) base stack ⟨env, out, polls, depth⟩ =
+            loop M obj code fuel (base + v.size) (iv :: stack) ⟨env, o1, polls + k1, depth⟩ := by
+          intro fuel; rw [ih1 fuel, hev]; rfl
+        cases hrv : resetVal iv with
+        | error e =>
+          refine ⟨1 + n1, k1 + 1, ?_⟩
+          apply finish_instr hrun1 hres ctx.nd (Or.inr rfl) 0 (by simp [storedArg, Op.length])
+          intro fuel
+          rw [step_iterReset_err M obj _ _ _ _ _ e _ _ hrv]
+          simp [afterS, hrv, Nat.add_assoc]
+        | ok it =>
+          simp only [hrv] at hnd
+          have hrun2 : ∀ fuel, loop M obj code (fuel + (1 + n1)) base stack ⟨env, out, polls, depth⟩ =
+              loop M obj code fuel (base + v.size + 1) (.iterating it 0 :: stack) ⟨env.addScope, o1, polls + k1 + 1, depth⟩ := by
+            apply finish_instr hrun1 hres ctx.nd (Or.inr rfl) 0 (by simp [storedArg, Op.length])
+            intro fuel
+            rw [step_iterReset_ok M obj _ _ _ _ _ it _ _ hrv]
+            simp [Instr.size, Op.length]
+          obtain ⟨n2, k2, ih2⟩ := ih.I idx x v body base cst r hpure.1 hpure.2 h hc hp it 0 stack env.addScope o1 (polls + k1 + 1) depth hnd
+          refine ⟨n2 + (1 + n1), k1 + 1 + k2, ?_⟩
+          apply chain hrun2 n2
+          intro fuel
+          rw [ih2 fuel]
+          simp [hrv, Nat.add_assoc]
   | _ => simp [stmtE] at hpure
+
+
+theorem step_I (ctx : Ctx M code) (f : Nat) (ih : SIH M obj code f) :
+    ∀ (idx x : Str) (v : Expr) (body : List Stmt) (base : Nat) (cst : CState) (r : List Instr × CState),
+      pureE v = true → pureSs body = true →
+      compileExpr (.foreachE idx x v body) base cst = .ok r → CodeAt code base r.1 → (∃ ex, M.consts = r.2.consts ++ ex) →
+      ∀ (it : Value) (k : Nat) (stack : List Value) (env : Env) (out : Str) (polls depth : Nat),
+        execIter M obj (f + 1) idx x body it k env out ≠ .diverged →
+      ∃ n k', ∀ fuel, loop M obj code (fuel + n) (base + v.size + 1) (.iterating it k :: stack) ⟨env, out, polls, depth⟩ =
+        afterS M obj code fuel (base + (Expr.foreachE idx x v body).size) stack (polls + k') depth
+          (execIter M obj (f + 1) idx x body it k env out) := by
+  intro idx x v body base cst r hpv hpb h hc hp it k stack env out polls depth hnd
+  obtain ⟨cv, st1, cb, ci, cx, L⟩ := foreach_layout h hc hp
+  have hlen := ctx.len
+  have hbound := L.bound
+  -- the instructions of the loop head
+  have hki := L.atReset.tail
+  have hkx := hki.tail
+  have hnext := hkx.tail
+  have hjif := hnext.tail
+  simp only [Instr.size, Op.length, withConst_op] at hki hkx hnext hjif
+  have hjmp := L.atJump
+  have hph := hjmp.tail
+  simp only [Instr.size, Op.length] at hph
+  have hsz : (Expr.foreachE idx x v body).size = v.size + 11 + Stmt.sizes body + 4 := by simp [Expr.size]
+  have hargi : storedArg (withConst st1 .constant (.str idx)).1 = (withConst st1 .constant (.str idx)).1.arg := by
+    have hlt : (withConst st1 .constant (.str idx)).1.arg < 65536 := by
+      have := (List.getElem?_eq_some_iff.mp L.geti).1
+      have := ctx.pool; omega
+    simp [storedArg, withConst_op, Op.length, Nat.mod_eq_of_lt hlt]
+  have hargx : storedArg (withConst (withConst st1 .constant (.str idx)).2 .constant (.str x)).1 =
+      (withConst (withConst st1 .constant (.str idx)).2 .constant (.str x)).1.arg := by
+    have hlt : (withConst (withConst st1 .constant (.str idx)).2 .constant (.str x)).1.arg < 65536 := by
+      have := (List.getElem?_eq_some_iff.mp L.getx).1
+      have := ctx.pool; omega
+    simp [storedArg, withConst_op, Op.length, Nat.mod_eq_of_lt hlt]
+  have ha1 : storedArg ⟨.jumpIfFalse, base + v.size + 1 + 3 + 3 + 1 + 3 + Stmt.sizes body + 3⟩ =
+      base + v.size + 1 + 3 + 3 + 1 + 3 + Stmt.sizes body + 3 := by
+    show (if Op.jumpIfFalse.length = 3 then (base + v.size + 1 + 3 + 3 + 1 + 3 + Stmt.sizes body + 3) % 65536 else 0) = _
+    rw [if_pos (by rfl : Op.jumpIfFalse.length = 3), Nat.mod_eq_of_lt (by omega)]
+  have ha2 : storedArg ⟨.jump, base + v.size + 1⟩ = base + v.size + 1 := by
+    show (if Op.jump.length = 3 then (base + v.size + 1) % 65536 else 0) = _
+    rw [if_pos (by rfl : Op.jump.length = 3), Nat.mod_eq_of_lt (by omega)]
+  -- push the two names
+  have hrun0 : ∀ fuel, loop M obj code (fuel + 0) (base + v.size + 1) (.iterating it k :: stack) ⟨env, out, polls, depth⟩ =
+      loop M obj code fuel (base + v.size + 1) (.iterating it k :: stack) ⟨env, out, polls, depth⟩ := fun _ => rfl
+  have hrun1 : ∀ fuel, loop M obj code (fuel + (1 + 0)) (base + v.size + 1) (.iterating it k :: stack) ⟨env, out, polls, depth⟩ =
+      loop M obj code fuel (base + v.size + 1 + 3) (ci :: .iterating it k :: stack) ⟨env, out, polls + 1, depth⟩ := by
+    apply finish_instr hrun0 hki ctx.nd (Or.inl hargi) _ hargi.symm
+    intro fuel
+    rw [withConst_op, step_constant M obj _ _ _ _ _ _ ci L.geti]
+    simp [Instr.size, withConst_op, Op.length]
+  have hrun2 : ∀ fuel, loop M obj code (fuel + (1 + (1 + 0))) (base + v.size + 1) (.iterating it k :: stack) ⟨env, out, polls, depth⟩ =
+      loop M obj code fuel (base + v.size + 1 + 3 + 3) (cx :: ci :: .iterating it k :: stack) ⟨env, out, polls + 1 + 1, depth⟩ := by
+    apply finish_instr hrun1 hkx ctx.nd (Or.inl hargx) _ hargx.symm
+    intro fuel
+    rw [withConst_op, step_constant M obj _ _ _ _ _ _ cx L.getx]
+    simp [Instr.size, withConst_op, Op.length]
+  simp only [execIter] at hnd ⊢
+  cases hin : iterNext it k with
+  | none =>
+    simp only [hin] at hnd ⊢
+    cases hrs : env.removeScope with
+    | none =>
+      refine ⟨1 + (1 + (1 + 0)), 1 + 1 + 1, ?_⟩
+      apply finish_instr hrun2 hnext ctx.nd (Or.inr rfl) 0 (by simp [storedArg, Op.length])
+      intro fuel
+      rw [step_iterNext_noscope M obj _ _ _ _ _ _ _ _ _ _ hin hrs]
+      simp [afterS, Nat.add_assoc]
+    | some env' =>
+      have hrun3 : ∀ fuel, loop M obj code (fuel + (1 + (1 + (1 + 0)))) (base + v.size + 1) (.iterating it k :: stack) ⟨env, out, polls, depth⟩ =
+          loop M obj code fuel (base + v.size + 1 + 3 + 3 + 1) (.bool false :: stack) ⟨env', out, polls + 1 + 1 + 1, depth⟩ := by
+        apply finish_instr hrun2 hnext ctx.nd (Or.inr rfl) 0 (by simp [storedArg, Op.length])
+        intro fuel
+        rw [step_iterNext_end M obj _ _ _ _ _ _ _ _ _ _ env' hin hrs]
+        simp [Instr.size, Op.length]
+      have hrun4 : ∀ fuel, loop M obj code (fuel + (1 + (1 + (1 + (1 + 0))))) (base + v.size + 1) (.iterating it k :: stack) ⟨env, out, polls, depth⟩ =
+          loop M obj code fuel (base + v.size + 1 + 3 + 3 + 1 + 3 + Stmt.sizes body + 3) stack ⟨env', out, polls + 1 + 1 + 1 + 1, depth⟩ := by
+        apply finish_instr hrun3 hjif ctx.nd (Or.inl ha1) _ ha1.symm
+        intro fuel
+        rw [step_jif M obj _ _ _ _ _ _ (.bool false) (by omega)]
+        simp [Value.truthy]
+      refine ⟨1 + (1 + (1 + (1 + (1 + 0)))), 1 + 1 + 1 + 1 + 1, ?_⟩
+      apply finish_instr hrun4 (hph.cast (by omega)) ctx.nd (Or.inr rfl) 0 (by simp [storedArg, Op.length])
+      intro fuel
+      rw [step_placeholder]
+      simp [afterS, hsz, Instr.size, Op.length, Nat.add_assoc]
+  | some p =>
+    obtain ⟨val, i⟩ := p
+    simp only [hin] at hnd ⊢
+    have hrun3 : ∀ fuel, loop M obj code (fuel + (1 + (1 + (1 + 0)))) (base + v.size + 1) (.iterating it k :: stack) ⟨env, out, polls, depth⟩ =
+        loop M obj code fuel (base + v.size + 1 + 3 + 3 + 1) (.bool true :: .iterating it (k + 1) :: stack)
+          ⟨(if idx.isEmpty then env.declare x val else (env.declare x val).declare idx i), out, polls + 1 + 1 + 1, depth⟩ := by
+      apply finish_instr hrun2 hnext ctx.nd (Or.inr rfl) 0 (by simp [storedArg, Op.length])
+      intro fuel
+      rw [step_iterNext_some M obj _ _ _ _ _ _ _ _ _ _ val i hin]
+      simp [Instr.size, Op.length, L.namei, L.namex]
+    have hrun4 : ∀ fuel, loop M obj code (fuel + (1 + (1 + (1 + (1 + 0))))) (base + v.size + 1) (.iterating it k :: stack) ⟨env, out, polls, depth⟩ =
+        loop M obj code fuel (base + v.size + 11) (.iterating it (k + 1) :: stack)
+          ⟨(if idx.isEmpty then env.declare x val else (env.declare x val).declare idx i), out, polls + 1 + 1 + 1 + 1, depth⟩ := by
+      apply finish_instr hrun3 hjif ctx.nd (Or.inl ha1) _ ha1.symm
+      intro fuel
+      rw [step_jif M obj _ _ _ _ _ _ (.bool true) (by omega)]
+      simp [Value.truthy, Instr.size, Op.length]
+    generalize hb : execSs M obj f body (if idx.isEmpty then env.declare x val else (env.declare x val).declare idx i) out = ob at hnd ⊢
+    cases ob with
+    | diverged => simp at hnd
+    | returned rv env' o' =>
+      obtain ⟨n2, k2, ih2⟩ := ih.Ss body _ _ _ hpb L.hb L.atBody L.poolB (.iterating it (k + 1) :: stack) (if idx.isEmpty then env.declare x val else (env.declare x val).declare idx i) out (polls + 1 + 1 + 1 + 1) depth (by rw [hb]; simp)
+      refine ⟨n2 + (1 + (1 + (1 + (1 + 0)))), 1 + 1 + 1 + 1 + k2, ?_⟩
+      apply chain hrun4 n2
+      intro fuel
+      have e : base + v.size + 1 + 3 + 3 + 1 + 3 = base + v.size + 11 := by omega
+      rw [← e, ih2 fuel, hb]; simp [afterS, Nat.add_assoc]
+    | failed e' env' o' =>
+      obtain ⟨n2, k2, ih2⟩ := ih.Ss body _ _ _ hpb L.hb L.atBody L.poolB (.iterating it (k + 1) :: stack) (if idx.isEmpty then env.declare x val else (env.declare x val).declare idx i) out (polls + 1 + 1 + 1 + 1) depth (by rw [hb]; simp)
+      refine ⟨n2 + (1 + (1 + (1 + (1 + 0)))), 1 + 1 + 1 + 1 + k2, ?_⟩
+      apply chain hrun4 n2
+      intro fuel
+      have e : base + v.size + 1 + 3 + 3 + 1 + 3 = base + v.size + 11 := by omega
+      rw [← e, ih2 fuel, hb]; simp [afterS, Nat.add_assoc]
+    | normal env' o' =>
+      obtain ⟨n2, k2, ih2⟩ := ih.Ss body _ _ _ hpb L.hb L.atBody L.poolB (.iterating it (k + 1) :: stack) (if idx.isEmpty then env.declare x val else (env.declare x val).declare idx i) out (polls + 1 + 1 + 1 + 1) depth (by rw [hb]; simp)
+      simp only at hnd
+      have hrun5 : ∀ fuel, loop M obj code (fuel + (n2 + (1 + (1 + (1 + (1 + 0)))))) (base + v.size + 1) (.iterating it k :: stack) ⟨env, out, polls, depth⟩ =
+          loop M obj code fuel (base + v.size + 11 + Stmt.sizes body) (.iterating it (k + 1) :: stack) ⟨env', o', polls + 1 + 1 + 1 + 1 + k2, depth⟩ := by
+        apply chain hrun4 n2
+        intro fuel
+        have e : base + v.size + 1 + 3 + 3 + 1 + 3 = base + v.size + 11 := by omega
+        rw [← e, ih2 fuel, hb]; simp [afterS, e]
+      have hrun6 : ∀ fuel, loop M obj code (fuel + (1 + (n2 + (1 + (1 + (1 + (1 + 0))))))) (base + v.size + 1) (.iterating it k :: stack) ⟨env, out, polls, depth⟩ =
+          loop M obj code fuel (base + v.size + 1) (.iterating it (k + 1) :: stack) ⟨env', o', polls + 1 + 1 + 1 + 1 + k2 + 1, depth⟩ := by
+        apply finish_instr hrun5 hjmp ctx.nd (Or.inl ha2) _ ha2.symm
+        intro fuel
+        rw [step_jump M obj _ _ _ _ _ _ (by omega)]
+      obtain ⟨n3, k3, ih3⟩ := ih.I idx x v body base cst r hpv hpb h hc hp it (k + 1) stack env' o' (polls + 1 + 1 + 1 + 1 + k2 + 1) depth hnd
+      refine ⟨n3 + (1 + (n2 + (1 + (1 + (1 + (1 + 0)))))), 1 + 1 + 1 + 1 + k2 + 1 + k3, ?_⟩
+      apply chain hrun6 n3
+      intro fuel
+      rw [ih3 fuel]; simp [Nat.add_assoc]
 
 /-- **Statements run as the language defines**, for every budget of the semantics -/
 theorem SIH_all (ctx : Ctx M code) : ∀ f, SIH M obj code f
   | 0 => SIH_zero M obj code
-  | f + 1 => ⟨step_E ctx f (SIH_all ctx f), step_S ctx f (SIH_all ctx f), step_Ss ctx f (SIH_all ctx f)⟩
+  | f + 1 => ⟨step_E ctx f (SIH_all ctx f), step_S ctx f (SIH_all ctx f), step_Ss ctx f (SIH_all ctx f), step_I ctx f (SIH_all ctx f)⟩
 
 end
 
@@ -576,6 +892,9 @@ mutual
     | .whileE c b, h => by
       simp only [stmtE, Bool.and_eq_true] at h
       simp [normExpr, normExpr_pure c h.1, normStmts_pure b h.2]
+    | .foreachE i x v b, h => by
+      simp only [stmtE, Bool.and_eq_true] at h
+      simp [normExpr, normExpr_pure v h.1, normStmts_pure b h.2]
   theorem normStmt_pure : ∀ (s : Stmt), pureS s = true → normStmt s = s
     | .ret e, h => by simp only [pureS] at h; simp [normStmt, normExpr_pure e h]
     | .expr e, h => by simp only [pureS] at h; simp [normStmt, normExpr_stmtE e h]
@@ -592,6 +911,7 @@ theorem pureS_size_pos : ∀ (s : Stmt), pureS s = true → 1 ≤ s.size
   | .expr (.ifE c cons none), _ => by simp [Stmt.size, Expr.size]
   | .expr (.ifE c cons (some a)), _ => by simp [Stmt.size, Expr.size]
   | .expr (.whileE c b), _ => by simp [Stmt.size, Expr.size]
+  | .expr (.foreachE i x v b), _ => by simp [Stmt.size, Expr.size]
 
 /-- the result of a run, according to how the script's top-level block ends: running off the end yields
     null, `return` its value, an error that error -/
